@@ -722,6 +722,8 @@ class Interp:
             pass
         if n.id in BUILTINS:
             return ("builtin", n.id)
+        if n.id == "__builtins__":
+            return {k: ("builtin", k) for k in BUILTINS}
         if n.id in ("float", "int", "bool", "str", "dict", "list", "tuple", "type", "set", "object"):
             return External(f"builtins.{n.id}")
         if n.id in ("TypeError", "ValueError", "AssertionError", "KeyError", "AttributeError", "NotImplementedError", "IndexError"):
